@@ -206,6 +206,10 @@ def make(kind, form='1d', alt=0):
         return S.Plucker.PQ([4.0, 6, 9], [2.0 + alt, -1.0, 0.5])                    # meets PL at its second defining point
     if k == 'PLN':
         return S.Plane.PN([1.0, -2.0 + alt, 0.5], [2.0, 1.0, -3.0])          # non-unit normal, non-zero offset
+    if k == 'Qtiny':
+        return S.Quaternion([0.5 + alt, 1e-15, -2e-15, 0.0])        # a vector part of round-off size (below every "is it zero" threshold, not zero)
+    if k == 'UQtiny':
+        return S.UnitQuaternion(np.array([-1.0, 1.2e-16 * (1 + alt), 0.0, -3e-17]), norm=False, check=False)      # what Rx(2 pi) holds
     if k == 'UQn':
         return S.UnitQuaternion(-ref.r2q_ref(ref.rotx(2.6 + 0.1 * alt) @ ref.roty(0.1)), norm=False, check=False)   # same rotation, negative scalar part
     if k == 'DQ':
@@ -340,7 +344,7 @@ def descriptors():
         out.append(D('%s.printline(None)/%s' % (cn, kind), quiet(lambda x: x.printline(file=None)), [kind], site=cn + '.printline'))
         out.append(D('%s.printline(file)/%s' % (cn, kind), quiet(lambda x: x.printline(file=io.StringIO())), [kind], site=cn + '.printline'))
         out.append(D('%s.printline(eul)/%s' % (cn, kind), quiet(lambda x: x.printline(file=io.StringIO(), orient='eul') if x.N == 3 else x.printline(file=io.StringIO(), unit='rad')), [kind], site=cn + '.printline'))
-    for kind in OBJ_KINDS + MULTI + ['SE3z', 'SE2z', 'SO3z', 'SE3u', 'SO3u']:
+    for kind in OBJ_KINDS + MULTI + ['SE3z', 'SE2z', 'SO3z', 'SE3u', 'SO3u', 'Qtiny', 'UQtiny']:
         cn = type(make(kind)).__name__
         out.append(D('str/%s' % kind, lambda x: str(x), [kind], site=cn + '.__str__'))
         out.append(D('repr/%s' % kind, lambda x: __import__('re').sub(r'0x[0-9a-f]+', '0x', repr(x)), [kind], site=cn + '.__repr__'))      # (default object repr carries an address)
@@ -349,7 +353,7 @@ def descriptors():
     # 3. classes by reflection: properties and nullary methods, on single- and multi-valued receivers
     skip = {'plot', 'animate', 'printline', 'print', 'about', 'Rand', 'Alloc', 'Empty', 'simplify', 'plot_intersect_volume', 'intersect_volume', 'pop', 'clear',
             'reverse', 'copy', 'sort', 'count', 'index', 'remove', 'append', 'extend', 'insert', 'arghandler', 'binop', 'unop', 'isvalid', 'data'}
-    for kind in OBJ_KINDS + MULTI + ['SE3z', 'SE2z', 'SO3z', 'SE3u', 'SO3u']:
+    for kind in OBJ_KINDS + MULTI + ['SE3z', 'SE2z', 'SO3z', 'SE3u', 'SO3u', 'Qtiny', 'UQtiny']:
         o = make(kind)
         C = type(o)
         for an in sorted(set(dir(C))):
